@@ -36,8 +36,11 @@ VERDICTS = ["accept", "reject", "forced-no"]
 CRED_CLASSES = [
     "abcdefghijklmnopqrstuvwxyz0123456789",
     " ", ",", "=", '"', "\\", ":", "éüß€日本𝔘", "@.-_",
+    # no C0/C1 control characters: several mechanisms cannot carry them (^A separates OAUTHBEARER fields) and the
+    # property's alphabet does not list them
+    "\u0301\u200b\u200d\u202e\ufeff\u00a0\u2028\u212b\ufb01\U0001f600\u0130\u00df",
 ]
-CLASS_NAMES = ["plain", "space", "comma", "equals", "dquote", "backslash", "colon", "nonascii", "punct"]
+CLASS_NAMES = ["plain", "space", "comma", "equals", "dquote", "backslash", "colon", "nonascii", "punct", "oddity"]
 # values that look like pieces of the mechanisms' own wire formats
 CRED_WHOLE = ["Bearer token-0123", "bearer x", "BEARER", "n,a=admin,", "=2C=3D", "a=b,c", "auth=Bearer x", "rspauth=1", "PLAIN",
               "{5}", "user@example.org", "Basic dXNlcg==", "dXNlcg==", "username=\"x\"", "realm", "e\u0301", "\u212bke", " lead", "trail ",
